@@ -444,7 +444,7 @@ func (t c12Tamper) String() string {
 
 var c12GenericKinds = []string{"flip", "flip", "trunc", "trunc-entry", "extend", "delete", "empty", "swapobj", "alt", "alt", "width", "alt-bundle"}
 var c12EntryKinds = []string{"swap-entries", "rotate", "dup-entry", "drop-entry", "subst-alt", "subst-alt", "subst-other", "subst-other-reindexed",
-	"retime", "reindex", "flip-type", "issuer-key-hash", "cert-bit", "unauth", "unauth", "archivalize"}
+	"retime", "reindex", "retime-bit", "reindex-bit", "reindex-bit", "flip-type", "issuer-key-hash", "cert-bit", "unauth", "unauth", "archivalize"}
 
 // c12PickTarget chooses an object to tamper with, biased towards the objects
 // the call is going to consult (focus = first index the call needs).
@@ -592,6 +592,13 @@ func c12ApplyTamper(t *rapid.T, v *c12View, objs map[string][]byte, key string) 
 			es[i] = &ce
 		case "retime":
 			ce.Timestamp += rapid.SampledFrom([]int64{1, -1, 1000}).Draw(t, "dt")
+			es[i] = &ce
+		case "retime-bit": // one bit of the 64-bit timestamp field
+			ce.Timestamp ^= 1 << uint(rapid.IntRange(0, 62).Draw(t, "tsBit"))
+			es[i] = &ce
+		case "reindex-bit": // one bit of the 40-bit leaf_index field, the high byte included
+			ce.Index ^= 1 << uint(rapid.SampledFrom([]int{0, 7, 8, 15, 16, 31, 32, 33, 36, 39, 39}).Draw(t, "idxBit"))
+			ce.Archival = false
 			es[i] = &ce
 		case "reindex":
 			ce.Index = rapid.SampledFrom([]int64{min(ce.Index+1, 1<<40-1), max(0, ce.Index-1), es[j].Index, 0, 1<<40 - 1}).Draw(t, "newIdx")
@@ -1109,7 +1116,7 @@ func c12LeafWithExt(e *vfref.Entry, ext []byte) []byte {
 	return append(out, ext...)
 }
 
-var c12SCTDefects = []string{"genuine", "log-id", "log-id-random", "timestamp", "timestamp-resigned", "index-other", "index-other-resigned", "index-out-of-range",
+var c12SCTDefects = []string{"genuine", "log-id", "log-id-random", "timestamp", "timestamp-bit", "timestamp-bit", "timestamp-resigned", "index-other", "index-other-resigned", "index-out-of-range",
 	"sig-other-leaf", "sig-foreign-key", "sig-bitflip", "sig-own-extensions", "extra-extension", "extra-extension-after", "no-leaf-index", "leaf-index-len", "trailing", "sig-trailing",
 	"version", "hash-alg", "sig-alg", "truncated", "genuine", "genuine"}
 
@@ -1131,6 +1138,8 @@ func c12GenSCT(t *rapid.T, w *c12World, p int64) *c12SCT {
 		s.logID[rapid.IntRange(0, 31).Draw(t, "idAt")] ^= 1
 	case "timestamp":
 		s.ts += uint64(rapid.SampledFrom([]int64{1, 1000}).Draw(t, "dts"))
+	case "timestamp-bit": // one bit of the SCT's own 64-bit timestamp field
+		s.ts ^= 1 << uint(rapid.IntRange(0, 63).Draw(t, "sctTsBit"))
 	case "timestamp-resigned": // self-consistent SCT for a leaf that is not in the log
 		s.ts++
 		ce := *te
@@ -1322,7 +1331,7 @@ func TestVerifC12EntryAndSCT(t *testing.T) {
 // ---------------------------------------------------------------------------
 
 var c12CPKinds = []string{"honest", "honest", "honest+lines", "stale", "other-origin", "foreign-key", "foreign-key-right-hash", "alt-root-foreign-key", "size+1", "root-bit", "sig-bitflip",
-	"extension-line", "invalid-origin", "timestamp-changed", "blob-trailing", "truncated", "missing", "grease-only", "garbage-line-first", "garbage-line-after", "alg-confusion", "empty", "no-blank-line"}
+	"extension-line", "invalid-origin", "timestamp-changed", "blob-trailing", "truncated", "missing", "grease-only", "garbage-line-first", "garbage-line-after", "alg-confusion", "empty", "no-blank-line", "sigalg-byte", "sigalg-byte-junk", "hashalg-byte"}
 
 func TestVerifC12Checkpoint(t *testing.T) {
 	rec := vfstat.New("C12Checkpoint")
@@ -1415,6 +1424,33 @@ func TestVerifC12Checkpoint(t *testing.T) {
 				other = keys[c12KeyLog]
 			}
 			cp = c12Checkpoint(other, k, origin, n, root, ts, nil, nil)
+		case "sigalg-byte": // RFC6962NoteSignature = timestamp(8) hash_alg(1) sig_alg(1) len(2) signature
+			v := byte(rapid.IntRange(0, 254).Draw(t, "sigAlgByte"))
+			cp = c12Checkpoint(k, k, origin, n, root, ts, nil, func(b []byte) []byte {
+				if v >= b[9] {
+					v++
+				}
+				b[9] = v
+				return b
+			})
+		case "sigalg-byte-junk": // an algorithm the verifier does not know, with arbitrary signature bytes
+			v := byte(rapid.IntRange(0, 253).Draw(t, "sigAlgByte"))
+			for v == 1 || v == 3 {
+				v += 3
+			}
+			junk := rapid.SliceOfN(rapid.Byte(), 0, 80).Draw(t, "junkSig")
+			cp = c12Checkpoint(k, k, origin, n, root, ts, nil, func(b []byte) []byte {
+				return append(append(bytes.Clone(b[:9]), v, byte(len(junk)>>8), byte(len(junk))), junk...)
+			})
+		case "hashalg-byte":
+			v := byte(rapid.IntRange(0, 254).Draw(t, "hashAlgByte"))
+			cp = c12Checkpoint(k, k, origin, n, root, ts, nil, func(b []byte) []byte {
+				if v >= b[8] {
+					v++
+				}
+				b[8] = v
+				return b
+			})
 		case "empty":
 			cp = []byte{}
 		case "no-blank-line":
